@@ -1314,6 +1314,17 @@ class BayesianNetwork(DAG):
         if (do != {}) or (virtual_intervention != []):
             virt_nodes = [cpd.variables[0] for cpd in virtual_intervention]
             model = model.do(list(do.keys()) + virt_nodes)
+            # A hard intervention fixes the variable whatever its own distribution says
+            # (sampling would never end for a state that has probability zero).
+            for var, state in do.items():
+                model.add_cpds(
+                    TabularCPD(
+                        var,
+                        len(state_names[var]),
+                        [[1.0 if s == state else 0.0] for s in state_names[var]],
+                        state_names={var: list(state_names[var])},
+                    )
+                )
             evidence = {**evidence, **do}
             virtual_evidence = [*virtual_evidence, *virtual_intervention]
 
